@@ -183,7 +183,7 @@ def c10(tier):
             continue
         ops = [t["s"] for t in c["tokens"] if t["t"] == "op" and t["s"] not in "()"]
         forms = sorted(set(t.get("form") for t in c["tokens"] if t["t"] == "n"))
-        keys = ["expr:" + c["_expr"]] + ["ops:" + " ".join(ops)] + ["form:" + f for f in forms] + (["overflow"] if not fits16 else [])
+        keys = ["expr:" + c["_expr"]] + ["ops:" + " ".join(ops)] + ["pos-ops:%s:%s" % (c["pos"], " ".join(ops))] + ["form:" + f for f in forms] + (["overflow"] if not fits16 else [])
         hit = [kf[k] for k in keys if k in kf]
         if hit:
             verdict.attribute(hit[0])
@@ -340,9 +340,9 @@ def c12(tier):
     seen, cases = set(), []
     res = None
     for pi, pos in enumerate(possets):
-        open(os.path.join(common.SPEC, "MCGenGraph.tla"), "w").write("---- MODULE MCGenGraph ----\nEXTENDS GenGraph\nMCPos == %s\n====\n" % pos)
+        open(os.path.join(d, "MCGenGraph.tla"), "w").write("---- MODULE MCGenGraph ----\nEXTENDS GenGraph\nMCPos == %s\n====\n" % pos)
         open(cfg, "w").write("CONSTANT Positions <- MCPos\nINIT Init\nNEXT Next\nINVARIANT Emit\nCHECK_DEADLOCK FALSE\n")
-        r = common.run_tlc("MCGenGraph", cfg=cfg, name="gen_c12_%d" % pi, tags={"CASE"}, workers=8, heap="8g", timeout=1500)
+        r = common.run_tlc("MCGenGraph", cfg=cfg, name="gen_c12_%d" % pi, tags={"CASE"}, workers=8, heap="8g", timeout=1500, module_dir=d)
         common.require_ok(r, "GenGraph")
         for (_, o) in r.lines:
             k = json.dumps(o, sort_keys=True)
@@ -486,6 +486,29 @@ def mutate(seedtext, rnd):
     return seedtext[:a] + rnd.choice(MENU) + seedtext[b:], "replace"
 
 
+def macro_cycle(src, args):
+    """does some macro (from #define lines or -D options) mention itself, directly or through other macros?"""
+    defs = {}
+    for m in re.finditer(r"^[ \t]*#[ \t]*define[ \t]+([A-Za-z_]\w*)(\([^)]*\))?(.*)$", src, re.M):
+        defs.setdefault(m.group(1), "")
+        defs[m.group(1)] += " " + m.group(3)
+    for a in args:
+        if a.startswith("-D") and len(a) > 2:
+            n, _, v = a[2:].partition("=")
+            defs[n] = defs.get(n, "") + " " + v
+    uses = {n: set(w for w in re.findall(r"[A-Za-z_]\w*", body) if w in defs) for n, body in defs.items()}
+    for n in defs:
+        seen, todo = set(), list(uses[n])
+        while todo:
+            x = todo.pop()
+            if x == n:
+                return True
+            if x not in seen:
+                seen.add(x)
+                todo += list(uses[x])
+    return False
+
+
 def c16(tier):
     t0 = time.time()
     pid = "C16"
@@ -574,6 +597,8 @@ def c16(tier):
         elif st == "err":
             e = o["err"]
             key = "badloc:%s" % e.get("msg", "")[:40]
+        elif st == "timeout":
+            key = "timeout:macro-cycle" if macro_cycle(src, hc[i]["variants"][0]["args"]) else "timeout"
         else:
             key = st
         hit = [fid for k, fid in sites.items() if key == k or (k.endswith("*") and key.startswith(k[:-1]))]
